@@ -757,11 +757,11 @@ example : toLowerCase E0 (.strObj [0xC4, 0xB0]) [] = .str [0x69] ∧ Spec.toLowe
 example : toLowerCase E0 (.strObj [0xF0, 0x90, 0x90, 0x80]) [] ≠ Spec.toLowerCase E0 (.strObj [0xF0, 0x90, 0x90, 0x80]) [] := by decide
 
 
--- index_not_enumerable: Object.getOwnPropertyDescriptor(new String("abc"), "1").enumerable / propertyIsEnumerable
-example : (SObj.build sABC []).desc [0x31] = .arr [[0x62], [0, 0, 0]] ∧ Spec.desc (U sABC) [] [0x31] = .arr [[0x62], [0, 1, 0]] := by decide
-example : (SObj.build sABC []).isEnumerable [0x31] = false ∧ Spec.isEnumerable (U sABC) [] [0x31] = true := by decide
--- define_index_shadow: Object.defineProperty(new String("abc"), "0", {value: "x"})
-example : (SObj.build sABC []).defineX [0x30] = .str [120] ∧ Spec.defineX (U sABC) [] [0x30] = .throwType := by decide
+-- index_not_enumerable / define_index_shadow (repaired by 255d788, 08228c6): both sides agree
+example : (SObj.build sABC []).desc [0x31] = .arr [[0x62], [0, 1, 0]] ∧ Spec.desc (U sABC) [] [0x31] = .arr [[0x62], [0, 1, 0]] := by decide
+example : (SObj.build sABC []).isEnumerable [0x31] = true ∧ Spec.isEnumerable (U sABC) [] [0x31] = true := by decide
+example : (SObj.build sABC []).defineX [0x30] = .throwType ∧ Spec.defineX (U sABC) [] [0x30] = .throwType := by decide
+example : (SObj.build sABC []).defineX [0x33] = .str [120] ∧ Spec.defineX (U sABC) [] [0x33] = .str [120] := by decide
 -- agreement of the own-property set on an example with expandos ("foo", "5", an ignored "0" and "length")
 example : (SObj.build sABC [[102, 111, 111], [0x35], [0x30], sLength]).ownNames =
     [[0x30], [0x31], [0x32], sLength, [102, 111, 111], [0x35]] ∧
